@@ -11,8 +11,14 @@ MEM = ['m_states', 'm_history', 'm_event_processing', 'm_deferred_events_queue']
 METH = ['internal_start', 'do_entry', 'do_exit', 'clear_deferred_queue', 'process_event']
 THROW = ['exit_active_substate', 'enter_active_substate', 'Derived_on_exit', 'Derived_on_entry', 'regions_do_exit', 'regions_do_start', 'internal_start',
          'direct_event_start_helper_call', 'PROCESS_COMPLETION_EVENT', 'process_event', 'do_handle_deferred', 'process_message_queue']
-def xf(rewrites=(), pre=(), exc_ret='', throwers=THROW):
-    return back_xform(['get_state_id', 'find_region_id'], refparams=('fsm', 'evt'), members=MEM, methods=METH, rewrites=list(rewrites), pre_rewrites=list(pre), throwers=throwers, exc_ret=exc_ret)
+def xf(rewrites=(), pre=(), exc_ret='', throwers=THROW, guards=None):
+    return back_xform(['get_state_id', 'find_region_id'], refparams=('fsm', 'evt'), members=MEM, methods=METH, rewrites=list(rewrites), pre_rewrites=list(pre), throwers=throwers, exc_ret=exc_ret, guards=guards)
+GUARDS = {'event_processing_reset': 'event_processing_reset_dtor'}
+# the scope guard's destructor (RAII): extracted and called where C++ unwinding / scope exit runs it (GUARD rule); absent -> empty body
+def GUARD_DTOR(SM):
+    return Part(SM, ['struct event_processing_reset'], '~ event_processing_reset ( )', optional=True,
+                xform=back_xform([], refparams=(), rewrites=[dict(name='REF-member', pat='m_flag', rep='* m_flag', min=0)]))
+GUARD_FS = 'static void event_processing_reset_dtor(_Bool* m_flag){@1}\n'
 REG_ENTRY = dict(name='SPEC-first-entry', pat='region_entry_exit_helper < int_ < 0 > > :: do_entry ( self ,', rep='REGIONS_DO_ENTRY ( self ,', min=0, max=1)
 DERIVED = [dict(name='CRTP-on_entry', pat='( ( ( Derived * ) ( self ) ) ) -> on_entry (', rep='Derived_on_entry ( self ,', min=0),
            dict(name='CRTP-on_exit', pat='( ( ( Derived * ) ( self ) ) ) -> on_exit (', rep='Derived_on_exit ( self ,', min=0),
@@ -46,8 +52,8 @@ for be in BACKS:
         [Part(SM, [], 'remove_direct_entry_event_wrapper ( EventType const & evt , dummy < 0 > = 0 )', xform=back_xform([], refparams=(), rewrites=[dict(name='wrapper-member', pat='evt . m_event', rep='unwrap ( evt )', min=1, max=1)])),
          Part(SM, [], 'remove_direct_entry_event_wrapper ( EventType const & evt , dummy < 1 > = 0 )')],
         'event_t remove_direct_entry_event_wrapper(event_t evt)', 'cascade_back.spec.h', compose='if (evt.wrapped) {@0} else {@1}', replay=['hist']))
-    # internal_start: verified once per calling context (start(): busy mark clear ; do_entry: busy mark set)
-    for ctx, d in (('from_start', 'CALLER_START=1'), ('from_do_entry', 'CALLER_DO_ENTRY=1')):
+    # internal_start: its only callers are the direct_event_start_helper variants, inside do_entry's busy bracket
+    for ctx, d in (('from_do_entry', 'CALLER_DO_ENTRY=1'),):
         UNITS.append(Unit(be + '.internal_start.' + ctx, ['C02', 'C04', 'C10', 'C09', 'C13'], be,
             Part(SM, [], 'void internal_start ( Event const & incomingEvent )'),
             'void internal_start(fsm_t* self, event_t incomingEvent)', 'cascade_back.spec.h', defines=[d],
@@ -61,11 +67,12 @@ for be in BACKS:
                   dict(name='history-deferred', pat='self -> m_history . process_deferred_events (', rep='process_deferred_events ( self ,', min=1, max=1)]),
         replay=['order']))
     UNITS.append(Unit(be + '.do_entry', ['C02', 'C04', 'C05', 'C08', 'C10', 'C12', 'C13'], be,
-        Part(SM, [], 'void do_entry ( Event const & incomingEvent , FsmType & fsm )'),
-        'void do_entry(fsm_t* self, event_t incomingEvent, fsm_t* fsm)', 'cascade_back.spec.h',
-        xform=xf(DERIVED + [REG_ENTRY,
+        [Part(SM, [], 'void do_entry ( Event const & incomingEvent , FsmType & fsm )',
+              xform=xf(DERIVED + [REG_ENTRY,
                   dict(name='functor-call', pat='direct_event_start_helper ( self ) (', rep='direct_event_start_helper_call ( self ,', min=0, max=1),
-                  dict(name='helper-object', pat='handle_defer_helper < library_sm > defer_helper ( self -> m_deferred_events_queue ) ; defer_helper . do_handle_deferred (', rep='do_handle_deferred ( self ,', min=0, max=1)]),
+                  dict(name='helper-object', pat='handle_defer_helper < library_sm > defer_helper ( self -> m_deferred_events_queue ) ; defer_helper . do_handle_deferred (', rep='do_handle_deferred ( self ,', min=0, max=1)],
+                  guards=GUARDS)), GUARD_DTOR(SM)],
+        'void do_entry(fsm_t* self, event_t incomingEvent, fsm_t* fsm)', 'cascade_back.spec.h', compose='@0', file_scope=GUARD_FS,
         also_replace_if_present=['regions_do_entry'], replay=['hist', 'exc']))
 
 DES = [REG_ENTRY, dict(name='member-call-start', pat='self -> internal_start (', rep='internal_start ( self ,', min=0, max=1),
@@ -91,9 +98,11 @@ START_RW = DERIVED + [dict(PCE, min=0),
 for be in BACKS:
     SM = be + '/state_machine.hpp'
     for nm, anchor in (('start', 'void start ( )'), ('start_evt', 'void start ( Event const & incomingEvent )')):
-        UNITS.append(Unit(be + '.' + nm, ['C03', 'C02', 'C04', 'C10', 'C13'], be, Part(SM, [], anchor),
-            'void start_unit(fsm_t* self, event_t incomingEvent)', 'cascade_back.spec.h',
-            xform=xf(START_RW, throwers=['Derived_on_entry', 'call_init_foreach', 'PROCESS_COMPLETION_EVENT']), also_replace=['process_completion_event'], replay=['queue', 'order']))
+        UNITS.append(Unit(be + '.' + nm, ['C03', 'C02', 'C04', 'C10', 'C12', 'C13'], be,
+            [Part(SM, [], anchor, xform=xf(START_RW + [dict(name='member-queue', pat='process_message_queue ( self )', rep='start_process_message_queue ( self )', min=0, max=1)],
+                                           throwers=['Derived_on_entry', 'call_init_foreach', 'PROCESS_COMPLETION_EVENT', 'start_process_message_queue'], guards=GUARDS)), GUARD_DTOR(SM)],
+            'void start_unit(fsm_t* self, event_t incomingEvent)', 'cascade_back.spec.h', compose='@0', file_scope=GUARD_FS,
+            also_replace=['process_completion_event'], replay=['queue', 'order', 'exc']))
     for nm, anchor in (('stop', 'void stop ( )'), ('stop_evt', 'void stop ( Event const & finalEvent )')):
         UNITS.append(Unit(be + '.' + nm, ['C03', 'C13'], be, Part(SM, [], anchor),
             'void stop_unit(fsm_t* self, event_t finalEvent)', 'cascade_back.spec.h', xform=xf(START_RW, throwers=[]), replay=['order']))
